@@ -240,8 +240,12 @@ func ruleDefaultCacheBindsIDs(c *Ctx) {
 			if !ok {
 				return false
 			}
-			_, isIface := mt.Elem().Underlying().(*types.Interface)
-			return isIface
+			// values are documents (interface{}), or loaders of documents kept in a table (func() *Schema)
+			switch mt.Elem().Underlying().(type) {
+			case *types.Interface, *types.Signature:
+				return true
+			}
+			return false
 		}
 		ast.Inspect(fd.Body, func(nd ast.Node) bool {
 			// entries of a map literal, or stores m[K] = V, into a map from constant texts to anything
@@ -277,7 +281,13 @@ func ruleDefaultCacheBindsIDs(c *Ctx) {
 				if !ok {
 					continue
 				}
-				if _, isCall := unparen(kv.Value).(*ast.CallExpr); !isCall {
+				switch v := unparen(kv.Value).(type) {
+				case *ast.CallExpr:
+				case *ast.Ident:
+					if _, isF := c.objOf(v).(*types.Func); !isF {
+						continue
+					}
+				default:
 					continue
 				}
 				out := map[string]bool{}
